@@ -21,7 +21,7 @@ from . import common, tlc
 OFF = 1999999999          # "not a lattice number": no spec operator admits it
 CAP = 1000000000          # distances are capped (TLC integers are 32 bit)
 PAIR_FLAGS = list(itertools.product([1, 0], repeat=3))         # (transform_log, transform_step, transform_0_1)
-BOX_FLAGS = [(1, 1, 0), (1, 1, 1), (0, 0, 0), (0, 0, 1)]       # documented sampling configurations + identity embedding
+BOX_FLAGS = PAIR_FLAGS
 
 
 # ----------------------------------------------------------------------------------------------
@@ -192,7 +192,10 @@ def _json_rt(od, d):
 def _value(d, vs):
     """Recipe value -> real value: ["c", i] = i-th choice of d, otherwise the number itself."""
     if isinstance(vs, list):
-        return d.choices[vs[1]]
+        c = d.choices[vs[1]]
+        # a float choice is passed as a fresh, equal object (a user's value is never the stored object; for
+        # nan this is the case `_categorical_choice_equal` exists for)
+        return c * 1.0 if isinstance(c, float) else c
     return vs
 
 
@@ -412,9 +415,12 @@ def values_for(od, spec, K, rng, n_max=7):
     return [mk(n) for n in grid], [mk(n) for n in miss]
 
 
-def recipes_for(od, spec, K, rng, quick, with_flags=PAIR_FLAGS):
+def recipes_for(od, spec, K, rng, quick):
     """All single-distribution recipes for one lattice input."""
     out = [{"op": "high", "dist": spec, "k": K}, {"op": "rt", "dist": spec, "k": K}, {"op": "single", "dist": spec, "k": K}]
+    # the deprecated classes are subclasses the transform treats by isinstance: two flag combinations in the quick tier
+    modern = spec[0] in ("FloatDistribution", "IntDistribution", "CategoricalDistribution")
+    with_flags = PAIR_FLAGS if (modern or not quick) else [(1, 1, 0), (0, 0, 1)]
     members, misses = values_for(od, spec, K, rng)
     d = build(od, spec)
     for v in members:
@@ -434,15 +440,15 @@ def recipes_for(od, spec, K, rng, quick, with_flags=PAIR_FLAGS):
         for v in (tvals if not quick else _spread(tvals, 5)):
             out.append({"op": "trans", "dists": [spec], "ks": [K], "flags": list(fl), "values": [v]})
     tok = dtok(d, K)
-    for fl in BOX_FLAGS:
+    for fl in with_flags:
         if tok["cls"] == "Cat":          # one-hot block: corners of the unit cube (ties included) and interior points
             n = len(d.choices)
             pts = [[0] * n, [1] * n] + [[int(i == j) for i in range(n)] for j in range(n)]
-            pts += [[rng.random() for _ in range(n)] for _ in range(2)]
+            pts += [[rng.random() for _ in range(n)] for _ in range(1 if quick else 3)]
             for p in pts:
                 out.append({"op": "box", "dists": [spec], "ks": [K], "flags": list(fl), "point": p})
             continue
-        pts = [0, 1, 0.5, 0.25] + [rng.random() for _ in range(2 if quick else 6)]
+        pts = [0, 1, 0.5] + [rng.random() for _ in range(1 if quick else 6)]
         if tok["step"] > 0 and tok["hi"] > tok["lo"] and OFF not in (tok["lo"], tok["hi"], tok["step"]):
             n = (tok["hi"] - tok["lo"]) // tok["step"] + 1       # cell boundaries: exact half steps
             pts += [Fraction(j, n) for j in sorted({1, n // 2, n - 1}) if 0 < j < n]
@@ -518,17 +524,6 @@ def build_recipes(ctx):
     return recipes, inst
 
 
-def signature(e) -> str | None:
-    """Shape of a rejected event, for KNOWN_FINDINGS.json (only shapes that were analysed and reported)."""
-    if e["op"] == "trans" and len(e["items"]) == 1:
-        it = e["items"][0]
-        if (it["d"]["cls"] in ("Int", "IntLogUniform") and it["d"]["log"] == 1 and e["tl"] == 0 and e["t01"] == 1
-                and it["back"]["ty"] == "int" and it["back"]["fl"] == it["o"]["fl"] - 1):
-            # _transform.py: `int(trans_param)` truncates in the transform_log=False branch of log-scaled ints
-            return "transform:log-int-no-log-0_1-truncates"
-    return None
-
-
 def _make_chunk(rs):
     return [make_event(r) for r in rs]
 
@@ -553,13 +548,8 @@ def judge(ctx, recipes, events, label):
     ctx.validated(v, label)
     for tid in sorted(v.rejected):
         r, e = recipes[tid - 1], events[tid - 1]
-        sig = signature(e)
-        f = ctx.match_known(sig) if sig else None
-        if f is not None:
-            ctx.known_finding(f, json.dumps(r, default=str)[:300])
-            continue
         ctx.violation(f"{e['op']}: the real code's answer is not admitted by Domain.tla for {json.dumps(r, default=str)}; "
-                      f"recorded {json.dumps(e)}"[:1800], {"recipe": r, "event": e, "spec": "DomainTrace", "signature": sig})
+                      f"recorded {json.dumps(e)}"[:1800], {"recipe": r, "event": e, "spec": "DomainTrace"})
         if len(ctx.violations) >= 10:
             break
     return v
@@ -621,14 +611,15 @@ def run(ctx):
     def above(t):
         it = t["ev"][0]["items"][0]
         it["got"]["fl"] = it["got"]["ce"] = it["got"]["near"] = it["d"]["hi"] + 1
-    ctx.binding_selftest("DomainTrace", "DomainTrace", {"tid": 1, "ev": [first("single")]}, flip_single, "single flipped")
-    ctx.binding_selftest("DomainTrace", "DomainTrace", {"tid": 1, "ev": [first("high", lambda e: e["d"]["step"] > 0)]},
-                         bump_high, "high + step")
     ctx.binding_selftest("DomainTrace", "DomainTrace", {"tid": 1, "ev": [first("rt", lambda e: e["d"]["step"] > 1)]},
                          drop_step, "round trip drops step")
     ctx.binding_selftest("DomainTrace", "DomainTrace",
                          {"tid": 1, "ev": [first("box", lambda e: e["items"][0]["d"]["cls"] == "Float"
                                                  and e["items"][0]["d"]["log"] == 0)]}, above, "box point above high")
+    if not ctx.quick:
+        ctx.binding_selftest("DomainTrace", "DomainTrace", {"tid": 1, "ev": [first("single")]}, flip_single, "single flipped")
+        ctx.binding_selftest("DomainTrace", "DomainTrace", {"tid": 1, "ev": [first("high", lambda e: e["d"]["step"] > 0)]},
+                             bump_high, "high + step")
     ctx.assumptions += [
         "numbers are decimal-lattice values (|x| <= 1e6, at most 7 decimals) given as the nearest double; a value is "
         "'on the lattice' iff it is bit-identical to the double nearest to the lattice number",
@@ -638,8 +629,8 @@ def run(ctx):
         "log-scaled floats: only 'within 4 doubles' is decided (accuracy of log/exp is outside a TLA+ model)",
         "D14: the inverse transform maps exactly-high of a non-single continuous float to the double below high",
         "D15: with transform_0_1 continuous floats return within 4 doubles of the magnitude of the range",
-        "points of the transformed box are taken for transform_log = transform_step (the docstring's sampling "
-        "configuration and the identity embedding); deprecated classes round-trip to the same deprecated class",
+        "deprecated classes round-trip through JSON to the same deprecated class (json_to_distribution looks the class "
+        "up by name); conversion to the modern classes happens elsewhere (storages) and is not part of this check",
         "categorical choices that are == (True, 1, 1.0) are identified, as the NOTE in to_internal_repr documents",
     ]
 
